@@ -36,6 +36,9 @@ class _Redirect:
 
             self.source = source
         else:
+            assert (
+                source is not None
+            ), "at least one possible source of this expression is None (a path of the expression provides no value)"
             self.source = target.type(source)
 
     def print(self):
@@ -106,6 +109,11 @@ def _try_join(options):
             # would lead to errors
             #
             # Signal[Unsigned[8]]() <<= Signal[Unsigned[4]]() if a else Full
+            return None
+
+        if option is None:
+            # a path without value, the alternatives are not joined
+            # (the expression is rejected once its value is used)
             return None
 
         option = TypeQualifier.decay(option)
